@@ -19,11 +19,13 @@ import (
 	"strconv"
 	"strings"
 	"time"
+	"unicode/utf8"
 
 	"golang.org/x/telemetry/internal/counter"
 	"golang.org/x/telemetry/internal/telemetry"
 	"golang.org/x/telemetry/internal/verifh/vh_stack/pa"
 	"golang.org/x/telemetry/internal/verifh/vh_stack/pb"
+	"golang.org/x/telemetry/internal/verifh/vh_stack/pu"
 	. "golang.org/x/telemetry/internal/verifh/vhlib"
 )
 
@@ -72,6 +74,14 @@ func guarded(f func()) {
 	done := make(chan struct{})
 	go func() {
 		defer close(done)
+		defer func() {
+			// a panic of the code under test: reported with the input of the call in progress
+			if r := recover(); r != nil {
+				out.Note("panic")
+				msg := fmt.Sprint(r)
+				out.Case(true, append([]string{"panic", HS(msg)}, pending...)...)
+			}
+		}()
 		f()
 	}()
 	select {
@@ -90,7 +100,7 @@ func step(i int) {
 		leaf()
 		return
 	}
-	switch prog[i] % 22 {
+	switch prog[i] % 26 {
 	case 0:
 		pa.F(i, step)
 	case 1:
@@ -134,6 +144,14 @@ func step(i int) {
 		f(i, step)
 	case 20:
 		pa.G[map[string]pb.Deep](nil, i, step)
+	case 22:
+		pu.F世界你好世界你好世界你好世界你好(i, step)
+	case 23:
+		pu.Ωμέγαλφαβήταγάμμαδέλταεψιλον(i, step)
+	case 24:
+		pu.Тип世界{}.Метод世界你好é(i, step)
+	case 25:
+		pu.Rec世界é(recDepth(prog[i]), i, step)
 	default:
 		step(i + 1)
 	}
@@ -146,8 +164,23 @@ func leafCapture() {
 	capture = buf[:n]
 }
 
+// forceUnicodeDeep: the next program is deep and made mostly of links with
+// multi-byte identifiers.
+var forceUnicodeDeep bool
+
 func genProg() []byte {
 	var n int
+	if forceUnicodeDeep {
+		forceUnicodeDeep = false
+		p := make([]byte, 30+rnd.Intn(60))
+		for i := range p {
+			p[i] = byte(22 + rnd.Intn(4))
+			if rnd.Chance(10) {
+				p[i] = byte(rnd.Intn(256))
+			}
+		}
+		return p
+	}
 	switch rnd.Intn(10) {
 	case 0:
 		n = 0
@@ -159,9 +192,15 @@ func genProg() []byte {
 		n = 1 + rnd.Intn(14)
 	}
 	p := make([]byte, n)
-	mode := rnd.Intn(4)
+	mode := rnd.Intn(5)
 	for i := range p {
 		switch mode {
+		case 4: // mostly links with multi-byte identifiers: a cut lands inside a character
+			if rnd.Chance(85) {
+				p[i] = byte(22 + rnd.Intn(4))
+			} else {
+				p[i] = byte(rnd.Intn(256))
+			}
 		case 0: // one package only (long ditto runs)
 			p[i] = byte(rnd.Intn(8))
 		case 1: // alternating packages
@@ -248,6 +287,14 @@ func genPrefix() string {
 	}
 }
 
+// caseEncUnicodeCut: a name that must be truncated, made of multi-byte
+// identifiers, with prefixes of every length modulo the character width.
+func caseEncUnicodeCut() {
+	out.Note("enc-unicode-deep")
+	forceUnicodeDeep = true
+	caseEnc()
+}
+
 func caseEnc() {
 	if rnd.Chance(6) { // long runs of one package: expanded name much longer than the encoded one
 		recBoost = 20 + rnd.Intn(90)
@@ -309,9 +356,13 @@ func caseEnc() {
 	fs := framesOf(pcs)
 	pending = append([]string{"EncodeStack", HS(prefix)}, frameFields(fs)...)
 	name := counter.EncodeStack(pcs, prefix)
+	pending = []string{"DecodeStack", HS(name)}
 	dec := counter.DecodeStack(name)
 	if len(name) >= 4096 {
 		out.Note("name-at-limit")
+		if cut := len(name) - len("\ntruncated\n"); cut > 0 && cut < len(name) && name[cut-1] >= 0x80 && !utf8.ValidString(name[:cut]) {
+			out.Note("cut-inside-a-multibyte-character")
+		}
 	}
 	if strings.Contains(name, "\n\".") {
 		out.Note("name-has-ditto")
@@ -469,9 +520,16 @@ func caseCacheDeepShared() {
 	for i := range base {
 		base[i] = Pick(rnd, same)
 	}
+	// where the stacks differ: the outermost link, anywhere, or around the 16th/32nd/64th frame from the top
 	j := 0
-	if rnd.Chance(50) {
+	switch rnd.Intn(4) {
+	case 0:
 		j = rnd.Intn(l)
+	case 1:
+		j = l - Pick(rnd, []int{7, 8, 15, 16, 17, 31, 32, 33}) - rnd.Intn(2)
+		if j < 0 {
+			j = 0
+		}
 	}
 	progs := [][]byte{base}
 	for _, alt := range same {
@@ -481,7 +539,11 @@ func caseCacheDeepShared() {
 			progs = append(progs, v)
 		}
 	}
-	runCacheMode(Pick(rnd, []string{"st", "deep"}), Pick(rnd, []int{33, 48, 64, 100, 256}), progs, 8, 0, rnd.Intn(2))
+	depth := 256 // deep enough to record every frame, mostly
+	if rnd.Chance(35) {
+		depth = Pick(rnd, []int{17, 33, 48, 64, 65, 100})
+	}
+	runCacheMode(Pick(rnd, []string{"st", "deep"}), depth, progs, 8, 0, rnd.Intn(2))
 }
 
 // caseCacheExpandedLong: long runs of frames of one package in a MAPPED file: the
@@ -723,10 +785,12 @@ func main() {
 			f = caseCacheGeneric
 		case i%100 == 19:
 			f = caseCacheDepths
-		case i%100 == 29:
+		case i%50 == 29:
 			f = caseCacheDeepShared
 		case i%100 == 39:
 			f = caseCacheExpandedLong
+		case i%20 == 7:
+			f = caseEncUnicodeCut
 		case i%10 < 5:
 			f = caseEnc
 		case i%10 < 8:
